@@ -316,6 +316,27 @@ def check_c15(tier):
             return f'get_direct_dependencies(Holder(v={v!r})) misses/duplicates instances', n
     if Leaf(1) == Leaf2(1):
         return 'tasks of different types compare equal', n
+    # equality and hashing agree: tasks that compare equal (1 / 1.0 / True, 0.0 / -0.0, the same dict items in another order)
+    # hash alike and find each other in dicts and sets, for cached and cache=None types alike
+    for mk in (lambda v: Holder(v=v), lambda v: Leaf(v), lambda v: NoCache(v=v), lambda v: Holder(v=[v, (v,)]), lambda v: Holder(w={'k': v})):
+        for group in ([1, 1.0, True], [0, 0.0, -0.0, False], [{'a': 1, 'b': 2}, {'b': 2, 'a': 1}], [(1, 2), [1, 2]], [frozendict({'x': 1.0}), {'x': 1}]):
+            ts3 = []
+            for v in group:
+                try:
+                    ts3.append(mk(v))
+                except Exception:
+                    pass
+            for a3 in ts3:
+                for b3 in ts3:
+                    n += 1
+                    if a3 == b3 and hash(a3) != hash(b3):
+                        return f'{a3!r} == {b3!r} but their hashes differ', n
+                    if a3 == b3 and ({a3: 1}.get(b3) != 1 or b3 not in {a3}):
+                        return f'{a3!r} == {b3!r} but one does not find the other in a dict / set', n
+    import replay.c06 as C6
+    r6 = C6.explore('quick')
+    if r6.get('reproduced'):
+        return 'copies in worker processes: ' + r6.get('summary', ''), n
     why, m = check_discovery()
     n += m
     if why:
@@ -435,6 +456,16 @@ def check_c09(tier):
                     return f'cached_tasks([{ty.__name__}]) returned a task of type {type(g).__name__}', n
             if len(got) != len({w.cache_key for w in want}):
                 return f'cached_tasks([{ty.__name__}]) returned {len(got)} tasks for {len({w.cache_key for w in want})} cached entries', n
+        # a task type with the same class name defined in another module shares the key prefix but is another type
+        import replay.values_twin as TW
+        twin = TW.Leaf(1234)
+        lab.run_tasks([twin], disable_progress=True, disable_top=True)
+        for ty, other in ((Leaf, TW.Leaf), (TW.Leaf, Leaf)):
+            for g in lab.cached_tasks([ty]):
+                if type(g) is not ty:
+                    return f'cached_tasks([{ty.__module__}.{ty.__name__}]) returned a task of type {type(g).__module__}.{type(g).__name__}', n
+        if [g for g in lab.cached_tasks([TW.Leaf])] != [twin] or twin in lab.cached_tasks([Leaf]):
+            return 'the entry of the same-named task type from another module is not listed exactly for its own type', n
         # several types in one query, in both orders, and a type listed twice: every entry still exactly once
         per_type = {ty: len(lab.cached_tasks([ty])) for ty in (Holder, Leaf, LeafX, Leaf2)}
         for query in ([Holder, Leaf, LeafX, Leaf2], [Leaf2, LeafX, Leaf, Holder], [Leaf, Leaf], [LeafX, Leaf, LeafX], [Holder, Holder, Leaf]):
